@@ -98,6 +98,13 @@ def pem_layouts(key):
         out.append(("ecparam-genkey", ("-----BEGIN EC PARAMETERS-----\n" + b64 + "-----END EC PARAMETERS-----\n").encode() + sec1))   # openssl ecparam -name <curve> -genkey
     pub = key.public_key().public_bytes(serialization.Encoding.PEM, serialization.PublicFormat.SubjectPublicKeyInfo)
     out.append(("private-then-public", pem_of(key) + pub))
+    # what surrounds the armour in files that tools and editors hand out: explanatory text before the first BEGIN line (openssl pkcs12 "Bag Attributes"),
+    # blank lines, CRLF line ends, a UTF-8 byte order mark
+    p8 = pem_of(key)
+    out.append(("bag-attributes", b"Bag Attributes\n    friendlyName: signing key\n    localKeyID: 01 02 03\nKey Attributes: <No Attributes>\n" + p8))
+    out.append(("blank-lines", b"\n\n" + p8 + b"\n"))
+    out.append(("crlf", p8.replace(b"\n", b"\r\n")))
+    out.append(("utf8-bom", b"\xef\xbb\xbf" + p8))
     return out
 
 
@@ -144,7 +151,7 @@ def convert_cases(res, drv, rng, tier, d):
                         no_length=rng.random() < 0.2, no_const=rng.random() < 0.3)
             common.make_stale(outp)
             try:
-                cmd_convert.main(input_file=inp, output_file=outp, header_file=hdrp if header or rng.random() < 0.5 else "",
+                common.call_main(cmd_convert.main, d, input_file=inp, output_file=outp, header_file=hdrp if header or rng.random() < 0.5 else "",
                                  footer_file=ftrp if footer or rng.random() < 0.5 else "", **opts)
                 text = open(outp).read()
             except BaseException as e:  # noqa
@@ -312,7 +319,7 @@ def keys_cases(res, rng, tier, d):
                                 with open(p, "wb") as fh:
                                     fh.write(b"-----BEGIN OLD-----\n" + b"A" * 3000 + b"\n-----END OLD-----\n")
                         try:
-                            cmd_keys.main(output_file=prefix, type=ktype, encoding=enc, private_format=pf, public_format=pubf, encryption="none")
+                            common.call_main(cmd_keys.main, d, output_file=prefix, type=ktype, encoding=enc, private_format=pf, public_format=pubf, encryption="none")
                             outcome = "ok"
                         except GeneratorError:
                             outcome = "GeneratorError"
